@@ -148,6 +148,20 @@ class World(object):
                                   where='%s:%d' % (frame.f_code.co_name, frame.f_lineno))
       if bound is not None and cache.size > bound and h.bound_violation is None:
         h.bound_violation = dict(step=sc_.step, size=cache.size, bound=bound, thread=me.name)
+      if frame.f_code.co_name == 'removeHandler' and me.name == 'recv':
+        # does a handler get unsubscribed while the writer thread is in the middle of dispatching the resume event?
+        import sys as _sys
+        wt = sc_.threads[1].thread
+        fr = _sys._current_frames().get(wt.ident) if wt is not None else None
+        depth = 0
+        while fr is not None and depth < 60:
+          if fr.f_code.co_name == '__call__' and fr.f_code.co_filename.endswith('events.py'):
+            ev = fr.f_locals.get('self')
+            if getattr(ev, 'name', '') == 'resumeReceivingMetrics' and frame.f_locals.get('self') is ev:
+              h.disconnect_during_resume_dispatch = getattr(h, 'disconnect_during_resume_dispatch', 0) + 1
+              break
+          fr = fr.f_back
+          depth += 1
       if step_monitor:
         step_monitor(sc_, me, frame, h)
     sc.on_point = on_point
@@ -290,6 +304,36 @@ class World(object):
             do_store(op[1], op[2], via=p)
           else:
             h.skipped_paused = getattr(h, 'skipped_paused', 0) + 1
+        elif k == 'chunk':     # one dataReceived() carrying several lines; a paused transport delivers nothing
+          p = protos[op[1] % len(protos)]
+          if p.transport.producerState == 'producing':
+            lines = []
+            for (m, t) in op[2]:
+              vcount[0] += 1
+              lines.append('%s %d %d\n' % (m, vcount[0], t))
+            h.chunks_delivered = getattr(h, 'chunks_delivered', 0) + 1
+            try:
+              p.dataReceived(''.join(lines).encode())
+            except S.Abort:
+              raise
+            except BaseException as e:
+              h.exceptions.append(('dataReceived', e))
+          else:
+            h.skipped_paused = getattr(h, 'skipped_paused', 0) + 1
+        elif k == 'connect':   # a new client connects (possibly while receivers are paused)
+          from twisted.internet.testing import StringTransport
+          p = self.protocols.MetricLineReceiver()
+          p.makeConnection(StringTransport())
+          p.verif_connected_while_paused = bool(state.metricReceiversPaused)
+          p.verif_state_after_connect = p.transport.producerState
+          protos.append(p)
+        elif k == 'disconnect':   # a client goes away
+          if len(protos) > 1:
+            from twisted.internet.error import ConnectionDone
+            from twisted.python.failure import Failure
+            p = protos.pop(op[1] % len(protos))
+            h.closed = getattr(h, 'closed', 0) + 1
+            p.connectionLost(Failure(ConnectionDone()))
         elif k == 'query':
           do_query([op[1]], False)
         elif k == 'bulk':
